@@ -212,7 +212,7 @@ func TestC23(t *testing.T) {
 	ev.Parallel(n, runtime.GOMAXPROCS(0), func(i int) {
 		g := rng.Sub(i)
 		p := gen.Generate(g, gen.Opts{Fmt: true, ElseOtherwise: true, Strptime: i%4 == 0})
-		src := (&gen.Renderer{Full: false, IndexStyle: g.Intn(2)}).Render(p)
+		src := (&gen.Renderer{Full: i%2 == 1, IndexStyle: g.Intn(2)}).Render(p)
 		name := fmt.Sprintf("p%d.mtail", i)
 		a1, err := parseCheck(name, src)
 		r.Eval(1)
